@@ -171,6 +171,15 @@ def shard(arg):
             gens = lc.graph_state_gens(n, gid)
             fmt = ["graph", "strings-nosign", "matrices-nophase", "strings+sign"][k % 4]
             run_subject(rep, n, name, gens, fmt, {"source": "table-graph", "class_id": k}, graph_gid=gid, sample=(k % 400 == 7))
+    elif kind == "named":
+        _, n, seed, part, parts = arg
+        from gen import named
+        for i, (label, gid, w, gens, circ) in enumerate(named.named_subjects(n)):
+            if i % parts != part:
+                continue
+            fmts = sweep.applicable_formats(gens, n)
+            for name in sweep.configs(n):
+                run_subject(rep, n, name, gens, fmts[i % len(fmts)], {"source": "named", "state": label}, sample=(i % 60 == 7 and name == "all"))
     elif kind == "hyp":
         _, seed, n_examples, deadline = arg
         from hypothesis import strategies as st
@@ -218,13 +227,17 @@ def run(ctx):
         N = 1 << (n * (n - 1) // 2)
         rng = fw.rng_for("c01g", ctx.seed, n)
         args.append(("graphs", n, sorted(rng.sample(range(N), 40 if q else 300)), ctx.seed))
+    for n in range(2, 7):
+        parts = {2: 1, 3: 1, 4: 2, 5: 6, 6: 16}[n]
+        for part in range(parts):
+            args.append(("named", n, ctx.seed, part, parts))
     kc = {2: 2, 3: 5, 4: 18, 5: 93, 6: 760}
     for (n, name) in coupling.CONFIGS:
         for chunk in fw.split(list(range(kc[n])), 1 if n < 6 else 4):
             args.append(("table-graphs", n, name, chunk, ctx.seed))
     for i in range(16):
         args.append(("hyp", ctx.seed * 1000 + i, 60 if q else 600, dl))
-    order = {"enum": 0, "member": 1, "hyp": 2, "graphs": 3, "table-graphs": 1}
+    order = {"enum": 0, "member": 1, "hyp": 2, "graphs": 3, "table-graphs": 1, "named": 1}
     args.sort(key=lambda a: (order[a[0]], -a[1] if a[0] != "hyp" else 0))
     rep = fw.run_shards(ctx, "props.c01", "shard", args)
     rep.extra["exhaustive"] = False
